@@ -27,6 +27,9 @@ type Failure struct {
 	Input       json.RawMessage `json:"input"`       // enough to re-run the case without the explorer
 	Expected    string          `json:"expected,omitempty"`
 	Observed    string          `json:"observed,omitempty"`
+	// NeedsHistory: the case fails only after the cases that precede it in its shard have run in the
+	// same process (state that survives a call); it is replayed by running the shard up to it
+	NeedsHistory bool `json:"needs_history,omitempty"`
 }
 
 // Key groups failures for known-finding classification.
@@ -66,7 +69,9 @@ type Ctx struct {
 	Deadline time.Time
 	Poison   map[int64]string // case numbers that killed an earlier worker (value: how): report, do not execute
 	Resume   int64            // cases below this number were executed by an earlier attempt that died later: skip silently
-	Res      Result
+	// StopAfter (>= 0): the run ends once the case of this number has been executed (history replay)
+	StopAfter int64
+	Res       Result
 
 	caseNo    int64
 	states    map[uint64]struct{}
@@ -81,7 +86,7 @@ type Ctx struct {
 
 // NewCtx creates the context; progressPath may be empty.
 func NewCtx(prop, tier, shard string, deadline time.Time, progressPath string, poison map[int64]string) *Ctx {
-	c := &Ctx{Property: prop, Tier: tier, Shard: shard, Deadline: deadline, Poison: map[int64]string{},
+	c := &Ctx{Property: prop, Tier: tier, Shard: shard, Deadline: deadline, Poison: map[int64]string{}, StopAfter: -1,
 		states: map[uint64]struct{}{}, nontriv: map[uint64]struct{}{}, sampleCap: 3, t0: time.Now()}
 	c.Res = Result{Property: prop, Tier: tier, Shard: shard, Outcomes: map[string]int64{}, FailCounts: map[string]int64{}, Exhaustive: true}
 	for k, v := range poison {
@@ -107,6 +112,13 @@ func NewCtx(prop, tier, shard string, deadline time.Time, progressPath string, p
 // the caller then records it via Crash-like accounting done by the driver.
 func (c *Ctx) Begin() (caseNo int64, run bool) {
 	n := c.caseNo
+	if c.StopAfter >= 0 && n > c.StopAfter {
+		// history replay: everything up to the case in question has run
+		if b, err := json.Marshal(c.Finish()); err == nil {
+			os.Stdout.Write(append(b, '\n'))
+		}
+		os.Exit(0)
+	}
 	c.caseNo++
 	if c.progress != nil {
 		*(*int64)(unsafe.Pointer(&c.progress[0])) = n
